@@ -1013,11 +1013,30 @@ def emit_fn(unit, blk, rel):
             raise ExtractError(f"lost anchor: contract of {name} converts closure {max(conv)}, body has {len(cls)}")
         edits = []
         top = sorted(k for k in blk.closures if isinstance(k, int))
+        # a directive with key="text" addresses the first not yet claimed closure (in source order) whose text contains `text`,
+        # instead of the k-th closure: annotations then survive the removal / insertion of unrelated closures
+        claimed, by_key = set(), {}
         for k in top:
-            if k > len(cls):
-                continue      # an annotation (R18) for a closure that no longer exists: nothing to annotate
-            (s, po, pc, bs, be) = cls[k - 1]
+            key = blk.closures[k].get("key")
+            if key:
+                nk = rtok.norm(key)
+                for ci, (s_, po_, pc_, bs_, be_) in enumerate(cls):
+                    if ci not in claimed and nk in rtok.norm(body.text[toks_b[s_].start:toks_b[be_].end]):
+                        claimed.add(ci)
+                        by_key[k] = ci
+                        break
+        for k in top:
             ca = blk.closures[k]
+            if ca.get("key"):
+                if k not in by_key:
+                    if ca.get("mode") != "annotate":
+                        raise ExtractError(f"lost anchor: no closure of {name} contains `{ca['key']}` (closure {k})")
+                    continue  # an annotation for a closure that no longer exists
+                (s, po, pc, bs, be) = cls[by_key[k]]
+            else:
+                if k > len(cls):
+                    continue      # an annotation (R18) for a closure that no longer exists: nothing to annotate
+                (s, po, pc, bs, be) = cls[k - 1]
             cbody = body.text[toks_b[bs].start:toks_b[be].end]
             cparams = body.text[toks_b[po].end:toks_b[pc].start] if pc > po else ""
             if ca.get("mode") == "annotate":
